@@ -71,7 +71,8 @@ def _rest(n, v, t, lo, cs, icvn, excluded, type_list):
     if not type_ok(v, t, cs, icvn):
         out.add(DATE_CODE.get(t, '6'))
     if type_list:
-        if not any(type_ok(v, x, cs, icvn) for x in type_list):
+        # as a format QUALIFIER, DT means CCYYMMDDHHMM: twelve digits (the data TYPE DT also takes 6 and 8)
+        if not any(type_ok(v, x, cs, icvn) and (x != 'DT' or len(v) == 12) for x in type_list):
             out.add('9' if 'TM' in type_list else '8')
     if n.regex:
         if not re.search(n.regex, v, re.S):
